@@ -890,6 +890,8 @@ where
         loop {
             tokio::select! {
                 _ = this.write_notify.notified() => {
+                    #[cfg(d_engine_verif)]
+                    verif_arm_trace::record(b'n');
                     // Persist all entries written to SkipMap since last fsync.
                     let end = this.max_index.load(Ordering::Acquire);
                     let start = this.durable_index.load(Ordering::Acquire) + 1;
@@ -975,6 +977,8 @@ where
                     }
                 }
                 cmd = receiver.recv() => {
+                    #[cfg(d_engine_verif)]
+                    verif_arm_trace::record(b'c');
                     let Some(cmd) = cmd else { break };
                     match cmd {
                         IOTask::Shutdown => {
@@ -1077,6 +1081,8 @@ where
                     }
                 }
                 _ = safety_timer.tick() => {
+                    #[cfg(d_engine_verif)]
+                    verif_arm_trace::record(b't');
                     // Safety-net: persist and fsync any entries not yet durable.
                     let end = this.max_index.load(Ordering::Acquire);
                     let start = this.durable_index.load(Ordering::Acquire) + 1;
@@ -1440,5 +1446,23 @@ where
     /// The `Notify` that `append_entries` signals and the IO loop waits on.
     pub fn verif_write_notify(&self) -> Arc<Notify> {
         self.write_notify.clone()
+    }
+}
+
+/// Verification hook (compiled only with `--cfg d_engine_verif`; add-only, no behaviour change): records which
+/// arm of `batch_processor`'s `select!` ran (`n` write_notify, `c` command, `t` safety timer), per thread, so that
+/// a harness polling the loop on its own thread can tell the order tokio's random arm selection took.
+#[cfg(d_engine_verif)]
+pub mod verif_arm_trace {
+    use std::cell::RefCell;
+    thread_local! {
+        static TRACE: RefCell<Vec<u8>> = const { RefCell::new(Vec::new()) };
+    }
+    pub(super) fn record(arm: u8) {
+        TRACE.with(|t| t.borrow_mut().push(arm));
+    }
+    /// Return and clear the arms recorded on this thread.
+    pub fn take() -> Vec<u8> {
+        TRACE.with(|t| std::mem::take(&mut *t.borrow_mut()))
     }
 }
